@@ -861,11 +861,9 @@ pub fn string_pad_start(
     }
 
     let pad_len = target_length - current_len;
-    let mut padding = String::new();
-    while padding.len() < pad_len {
-        padding.push_str(pad_string.as_str());
-    }
-    padding.truncate(pad_len);
+    // pad_len counts characters: repeat the pad string character by character (a byte-length
+    // truncate would cut inside a multi-byte character)
+    let padding: String = pad_string.as_str().chars().cycle().take(pad_len).collect();
 
     Ok(Guarded::unguarded(JsValue::String(JsString::from(
         format!("{}{}", padding, s.as_str()),
@@ -890,11 +888,9 @@ pub fn string_pad_end(
     }
 
     let pad_len = target_length - current_len;
-    let mut padding = String::new();
-    while padding.len() < pad_len {
-        padding.push_str(pad_string.as_str());
-    }
-    padding.truncate(pad_len);
+    // pad_len counts characters: repeat the pad string character by character (a byte-length
+    // truncate would cut inside a multi-byte character)
+    let padding: String = pad_string.as_str().chars().cycle().take(pad_len).collect();
 
     Ok(Guarded::unguarded(JsValue::String(JsString::from(
         format!("{}{}", s.as_str(), padding),
